@@ -184,9 +184,9 @@ def stD (w : World) (cfg : Cfg) : Ty → Obj → Res
         let (ys, errs) := stDT w cfg 0 ts xs
         let errs := if xs.length != ts.length then errs ++ [(Option.none, Err.leaf)] else errs
         if !errs.isEmpty then .error (.ive errs) else .ok (.coll .tuple ys)
-  | .map _ kt vt, .dict kvs =>
+  | .map k kt vt, .dict kvs =>
       let (r, errs) := stDKV w cfg kt vt kvs
-      if !errs.isEmpty then .error (.ive errs) else .ok (.dict (mkDict r))
+      if !errs.isEmpty then .error (.ive errs) else .ok (mapRes cfg k (mkDict r))
   | .opt _, .none => .ok .none
   | .opt t, x => stD w cfg t x
   | .wrap _ t, x => stD w cfg t x
